@@ -410,6 +410,20 @@ def rejections(ctx):
          ("del TsGroup[k]", g, lambda: g.__delitem__(1)), ("TsGroup.pop(k)", g, lambda: g.pop(2)), ("TsGroup.popitem()", g, lambda: g.popitem()),
          ("TsGroup.clear()", g, lambda: g.clear()), ("TsGroup[new key]=", g, setitem_(g, 9, nap.Ts(np.arange(3.0)))),
          ("TsGroup.update()", g, lambda: g.update({9: nap.Ts(np.arange(3.0))}))]
+    # writes THROUGH what the accessors return (augmented assignment runs the in-place operation on the returned array before the
+    # container's own __setitem__ / __setattr__ gets to refuse), and into the arrays behind the time index and the support
+    def ex(code, **env):
+        return lambda: exec(code, dict(env, np=np))
+    A += [("IntervalSet[:,0]+=", ep, ex("ep[:, 0] += 7.0", ep=ep)), ("IntervalSet.start+=", ep, ex("ep.start += 7.0", ep=ep)),
+          ("IntervalSet['start']+=", ep, ex("ep['start'] += 7.0", ep=ep)), ("IntervalSet.end-=", ep, ex("ep.end -= 1.0", ep=ep)),
+          ("IntervalSet.values[0,0]=", ep, ex("ep.values[0, 0] = 3.0", ep=ep)), ("IntervalSet.start[0]=", ep, ex("ep.start[0] = 3.0", ep=ep)),
+          ("IntervalSet['end'][1]=", ep, ex("ep['end'][1] = 0.0", ep=ep)), ("IntervalSet[:,1][0]=", ep, ex("ep[:, 1][0] = -1.0", ep=ep)),
+          ("np.add(out=IntervalSet.start)", ep, ex("np.add(ep.start, 1.0, out=ep.start)", ep=ep)),
+          ("Ts.t[0]=", ts, ex("x.t[0] = 9.0", x=ts)), ("Tsd.t[0]=", tsd, ex("x.t[0] = 9.0", x=tsd)),
+          ("Tsd.index.values[0]=", tsd, ex("x.index.values[0] = 9.0", x=tsd)), ("TsdFrame.t[-1]=", fr, ex("x.t[-1] = 0.0", x=fr)),
+          ("np.asarray(Tsd.index)[0]=", tsd, ex("np.asarray(x.index)[0] = 9.0", x=tsd)),
+          ("Tsd.time_support.values[0,0]=", tsd, ex("x.time_support.values[0, 0] = 2.0", x=tsd)),
+          ("TsGroup.time_support.start[0]=", g, ex("x.time_support.start[0] = 2.0", x=g))]
     for name, o, act in A:
         ctx.case(("reject", name))
         b = snap(o)
